@@ -384,12 +384,17 @@ func checkC13(c CaseC13, info *Info) *Failure {
 	if rawAPI {
 		cat := bytes.Join(raws, nil)
 		if c.Kind == "json" {
-			if !bytes.Equal(stripWS(data), cat) {
-				return failf("raw-mismatch", "%s: raw concatenation %q != stream without insignificant whitespace %q", desc(), cat, stripWS(data))
+			// the raw values are the consumed bytes, literally or with the JSON-insignificant whitespace removed
+			// (leniency 1): in both readings their significant bytes are exactly those of the stream, in order
+			if !bytes.Equal(stripWS(data), stripWS(cat)) {
+				return failf("raw-mismatch", "%s: raw concatenation %q does not carry the significant bytes of the stream %q", desc(), cat, stripWS(data))
+			}
+			if !bytes.HasPrefix(data, cat) && !bytes.Equal(stripWS(cat), cat) {
+				return failf("raw-mismatch", "%s: raw concatenation %q is neither a literal prefix of the stream nor its whitespace-free form", desc(), cat)
 			}
 			for i := 0; i < nd && i < len(raws); i++ {
-				if !bytes.Equal(raws[i], stripWS(docs[i])) {
-					return failf("raw-mismatch", "%s: raw %d %q != document %q", desc(), i, raws[i], stripWS(docs[i]))
+				if !bytes.Equal(stripWS(raws[i]), stripWS(docs[i])) {
+					return failf("raw-mismatch", "%s: raw %d %q != document %q (modulo insignificant whitespace)", desc(), i, raws[i], stripWS(docs[i]))
 				}
 			}
 		} else {
